@@ -8,6 +8,13 @@ runs the real implementation (tools/harness/c17_impl.py, which records the oracl
 `curve_fit` and `chi2` inside the harness process) and lets Coq run the model on the same inputs with the
 recorded oracle answers and compare everything (coq-run/C17/Corr.v).
 
+Model selection ("model product order, first success wins"): for list x list specifications every (peak, background)
+combination is additionally fitted ON ITS OWN through the public function (single-model specification, the windows of
+the list call passed explicitly); Coq evaluates ModelOrder.first_success over Model.candidates (the documented order) on
+these results and compares with the list call's result (ProofsOrder.fit_peak_is_first_success_of_solo_fits proves that the
+model's fit_peak is that function).  Class `combo` tunes min_p_value between the p-values of the single fits so that the
+first combination fails and the trial ORDER decides which model pair is returned.
+
 Three defects of the tree as found are switchable in the model (Model.variant): the correspondence tells
 which variant the CURRENT source is; the full theorems hold for the variant with the proposed patches and are
 refuted (with witnesses) for the tree as found.
@@ -36,6 +43,8 @@ TRUSTED = [
     'oracles (arbitrary in all theorems): scipp.scipy.optimize.curve_fit, Model.guess, Model.__call__ (C16), '
     'log, scipy.stats.chi2.cdf; recorded per run by tools/harness/c17_impl.py by wrapping the two library '
     'functions inside the harness process',
+    'coq/C17/ModelOrder.v: first_success (first result marked successful, else the first) -- evaluated inside Coq on the '
+    'implementation\'s own single-combination results in the order Model.candidates',
     'coq/C17/QFun.v: 140-bit fixed-point ln (correspondence only: re-derives the AIC in Coq)',
     'tools/harness/c17_impl.py + props/C17.py (generation, exact serialisation of binary64 as rationals)',
 ]
@@ -248,7 +257,7 @@ def gen_fr(rng):
             'minf': rng.choice([1.0, 0.5, 3.0, 0.0])}
 
 
-def synth_data(rng, x, n_peaks, width_steps=None, noise_pow=None, bkg_deg=None, shapes=None):
+def synth_data(rng, x, n_peaks, width_steps=None, noise_pow=None, bkg_deg=None, shapes=None, height_range=(8, 80)):
     """1..6 peaks (any of the three shapes, widths 0.3..30 grid steps) on a linear/quadratic background with
     seeded noise; variances are small dyadic multiples (m/16)*nl^2 so that the exact-rational chi-square stays small"""
     n = len(x)
@@ -266,7 +275,7 @@ def synth_data(rng, x, n_peaks, width_steps=None, noise_pow=None, bkg_deg=None, 
     for c in centers:
         kind = rng.choice(shapes or PEAKS)
         sig = ws * h * rng.uniform(0.8, 1.25)
-        height = nl * rng.uniform(8, 80)
+        height = nl * rng.uniform(*height_range)
         frac = rng.uniform(0.1, 0.9)
         # amplitude giving roughly that height
         amp = height * sig * (math.sqrt(2 * math.pi) if kind == 'gaussian' else math.pi)
@@ -403,6 +412,119 @@ def gen_case(rng, cid, klass):
     return enc(c)
 
 
+HEIGHTS = [(8, 30), (30, 120), (120, 500)]
+
+
+def gen_combo_base(rng, cid):
+    """model LISTS on both sides (2x2, 2x3 in either order, names or instances) on data whose true shape/background is
+    usually NOT the first entry of the lists, so that the first combination fails and later ones succeed.  The case
+    is completed by tune_combo() (which picks min_p_value between the p-values of the single-combination fits)."""
+    n = rng.randint(70, 130)
+    gkind, x = gen_grid(rng, n)
+    span = x[-1] - x[0]
+    h = span / (n - 1)
+    n_peaks = rng.choice([1, 1, 2])
+    shape = rng.choice(PEAKS)
+    deg = rng.choice([1, 2])
+    ws = rng.uniform(3, 9) / (1.0 if n_peaks == 1 else 1.6)
+    y, var, pk, meta = synth_data(rng, x, n_peaks, width_steps=ws, bkg_deg=deg, shapes=[shape], height_range=rng.choice(HEIGHTS))
+    c = {'id': cid, 'class': 'combo', 'x': x, 'y': y, 'var': var, 'grid': gkind, 'truth': pk}
+    pks = rng.sample(PEAKS, rng.choice([2, 2, 3]))
+    if pks[0] == shape and rng.random() < 0.7:
+        pks = pks[1:] + pks[:1]
+    bks = rng.choice([['linear', 'quadratic'], ['linear', 'quadratic'], ['quadratic', 'linear']])
+
+    def item(kind_name, role):
+        if rng.random() < 0.7:
+            return {'name': kind_name}
+        pre = rng.choice(['', 'pre_', 'bkg_', 'peak_', 'x'])
+        if role == 'bkg':
+            return {'inst': 'poly', 'degree': {'linear': 1, 'quadratic': 2}[kind_name], 'prefix': pre}
+        return {'inst': kind_name, 'prefix': pre}
+    c['bkg'] = {'form': 'many', 'container': rng.choice(['list', 'tuple']), 'items': [item(k, 'bkg') for k in bks]}
+    c['peak'] = {'form': 'many', 'container': rng.choice(['list', 'tuple']), 'items': [item(k, 'peak') for k in pks]}
+    c['est'] = sorted(p['loc'] + rng.uniform(-0.4, 0.4) * p['scale'] for p in pk)
+    sig = ws * h
+    width = min(max(loguniform(rng, 5, 24) * sig, 12 * h), span / n_peaks)
+    if rng.random() < 0.3:
+        c['windows'] = {'explicit': [[e - width / 2 * rng.uniform(0.7, 1.3), e + width / 2 * rng.uniform(0.7, 1.3)]
+                                     for e in c['est']]}
+    else:
+        c['windows'] = {'scalar': width}
+    c['fp'] = gen_fp(rng)
+    c['fr'] = {'min_p': 0.0, 'maxf': rng.choice([1.0, 1.0, 1.0, 2.0]), 'minf': rng.choice([1.0, 1.0, 1.0, 0.5])}
+    c['remove_synth'] = []
+    c['solo'] = True
+    return enc(c)
+
+
+def doc_order(case):
+    """documented trial order of the combinations: peak outer, background inner ("the background is varied first")"""
+    return [(ip, ib) for ip in range(len(case['peak']['items'])) for ib in range(len(case['bkg']['items']))]
+
+
+def transposed_order(case):
+    return [(ip, ib) for ib in range(len(case['bkg']['items'])) for ip in range(len(case['peak']['items']))]
+
+
+def first_in(order, ok):
+    return next((k for k in order if ok[k]), order[0])
+
+
+def order_profile(case, obs, min_p=None):
+    """per peak: (first combination fails although a later one succeeds, first success differs between the documented
+    and the background-major order), from the single-combination fits; with min_p given: as if min_p_value were
+    min_p (the p-value test comes right after the AIC test in the cascade, so a fit that succeeds with min_p_value = 0
+    succeeds for min_p iff p >= min_p)"""
+    if obs.get('exc') is not None or not obs.get('solos') or any(s_.get('exc') for s_ in obs['solos']):
+        return []
+    solos = {(s_['ip'], s_['ib']): s_['results'] for s_ in obs['solos']}
+    doc, tr = doc_order(case), transposed_order(case)
+    out = []
+    for i in range(len(obs['results'])):
+        ok = {}
+        for k in doc:
+            r = solos[k][i]
+            ok[k] = r['assessment'] == 'success' and (min_p is None or unhx(r['p']) >= min_p)
+        out.append((not ok[doc[0]] and any(ok.values()), first_in(doc, ok) != first_in(tr, ok)))
+    return out
+
+
+def tune_combo(case, obs):
+    """choose min_p_value between the p-values of the single-combination fits so that the trial ORDER decides the
+    result (first combination fails, two later ones in different rows/columns succeed); the default 0.01 is kept when
+    it already does"""
+    case = dict(case)
+    fr = dict(case['fr'])
+
+    def score(t):
+        pr = order_profile(case, obs, t)
+        return 10 * sum(1 for a, b in pr if b) + sum(1 for a, b in pr if a)
+    ps = set()
+    if obs.get('exc') is None and obs.get('solos') and not any(s_.get('exc') for s_ in obs['solos']):
+        for s_ in obs['solos']:
+            for r in s_['results']:
+                if r['assessment'] == 'success' and not math.isnan(unhx(r['p'])):
+                    ps.add(unhx(r['p']))
+    ps = sorted(ps)
+    cands = [0.01] + [(a + b) / 2 for a, b in zip(ps, ps[1:]) if a < (a + b) / 2 < b]
+    best = max(cands, key=lambda t: (score(t), t == 0.01))
+    fr['min_p'] = hx(best)
+    if best == 0.01 and unhx(fr['maxf']) == 1.0 and unhx(fr['minf']) == 1.0:
+        case['fr'] = None
+    else:
+        case['fr'] = fr
+    return case
+
+
+def gen_combo_cases(ctx, rng, n, first_id):
+    base = [gen_combo_base(rng, first_id + i) for i in range(n)]
+    if not base:
+        return []
+    res = ctx.run_impl(HARNESS, {'cases': [dict(c, remove_fitted=False) for c in base]}, timeout=1800)
+    return [tune_combo(c, o) for c, o in zip(base, res['cases'])]
+
+
 def enc(c):
     """binary64 -> hex strings (the payload IS the replay)"""
     c = dict(c)
@@ -440,12 +562,28 @@ def witness_cases():
     return [enc(w1), enc(w2), enc(w3), enc(w4), enc(w5)]
 
 
-def gen_cases(rng, tier):
+N_COMBO = 14
+
+
+def want_solo(c):
+    """list specifications on both sides: every combination is also fitted on its own (at most 3 estimates, to bound
+    the time)"""
+    return (c['bkg']['form'] == 'many' and c['peak']['form'] == 'many' and len(c['bkg']['items']) >= 2
+            and len(c['peak']['items']) >= 2 and len(c['est']) <= 3)
+
+
+def gen_cases(rng, tier, ctx=None):
     plan = (['random'] * 46 + ['narrow'] * 22 + ['outside'] * 16 + ['zero_dof'] * 6 + ['explicit'] * 14
             + ['wide'] * 8 + ['unsorted'] * 3 + ['badspec'] * 5)
     if tier != 'quick':
         plan = plan * 8
-    return witness_cases() + [gen_case(rng, i, k) for i, k in enumerate(plan)]
+    cases = witness_cases() + [gen_case(rng, i, k) for i, k in enumerate(plan)]
+    for c in cases:
+        if c['class'] in ('random', 'explicit', 'wide') and want_solo(c):
+            c['solo'] = True
+    if ctx is not None:
+        cases += gen_combo_cases(ctx, rng, N_COMBO * (1 if tier == 'quick' else 6), len(plan))
+    return cases
 
 
 # --------------------------------------------------------------------------- Coq terms
@@ -548,7 +686,25 @@ def case_term(case, obs):
         ob = '(ObsResults ' + clist([res_term(r) for r in obs['results']]) + ')'
     rem = clist([remove_term(case, rr) for rr in obs.get('removes', [])])
     return (f'(mkF {data} {est} {wsp} {ow} {spec_term(case["bkg"])} {spec_term(case["peak"])} '
-            f'{fp_term(case.get("fp"))} {fr_term(case.get("fr"))} {clist(tr)} {cdf} {ob} {rem})')
+            f'{fp_term(case.get("fp"))} {fr_term(case.get("fr"))} {clist(tr)} {cdf} {ob} {rem} {solos_term(case, obs)})')
+
+
+KIND_TERM = {'linear': '(MPoly 1)', 'quadratic': '(MPoly 2)', 'gaussian': '(MPeak Gaussian)',
+             'lorentzian': '(MPeak Lorentzian)', 'pseudo_voigt': '(MPeak PseudoVoigt)'}
+
+
+def solos_term(case, obs):
+    """the implementation's results for every combination fitted alone (a call that raised is left out: Coq then
+    reports the missing combination)"""
+    if not obs.get('solos'):
+        return '[]'
+    pk, bk = spec_kinds(case['peak']), spec_kinds(case['bkg'])
+    out = []
+    for s_ in obs['solos']:
+        if s_.get('exc') is not None:
+            continue
+        out.append(f'(mkS {KIND_TERM[pk[s_["ip"]]]} {KIND_TERM[bk[s_["ib"]]]} {clist([res_term(r) for r in s_["results"]])})')
+    return clist(out)
 
 
 # --------------------------------------------------------------------------- the property, evaluated in Python
@@ -586,6 +742,10 @@ def model_value(r, popt, x):
 
 def property_violations(case, obs):
     """the statement of C17 evaluated directly on one observation; list of (key, text)"""
+    return fit_violations(case, obs) + order_violations(case, obs)
+
+
+def fit_violations(case, obs):
     bad = []
     adm, why = admissible(case)
     xs = [unhx(v) for v in case['x']]
@@ -707,6 +867,60 @@ def property_violations(case, obs):
     return bad
 
 
+def same_result(a, b):
+    def close(u, v):
+        u, v = unhx(u), unhx(v)
+        if math.isnan(u) or math.isnan(v) or math.isinf(u) or math.isinf(v):
+            return (math.isnan(u) and math.isnan(v)) or u == v
+        return abs(u - v) <= 1e-9 * (1 + abs(u) + abs(v))
+    return (a['assessment'] == b['assessment'] and a['peak'] == b['peak'] and a['bkg'] == b['bkg']
+            and a['window'] == b['window'] and sorted(a['popt']) == sorted(b['popt'])
+            and all(close(a['popt'][k], b['popt'][k]) for k in a['popt'])
+            and close(a['red'], b['red']) and close(a['p'], b['p']) and close(a['aic'], b['aic']))
+
+
+def rname(r):
+    return f"{r['assessment']}/{list(r['peak'].values())[0]}+poly{r['bkg'].get('poly')}"
+
+
+def order_violations(case, obs):
+    """model product order, first success wins -- evaluated on the implementation alone: the result for LISTS of models
+    must be the first successful one, in the documented order (peak outer, background inner), among the results the
+    implementation returns for every combination specified on its own with the same explicit windows"""
+    if obs.get('exc') is not None or not obs.get('solos'):
+        return []
+    bad = []
+    doc = doc_order(case)
+    solos = {(s_['ip'], s_['ib']): s_ for s_ in obs['solos']}
+    names = {(ip, ib): f"{spec_kinds(case['peak'])[ip]}+{spec_kinds(case['bkg'])[ib]}" for ip, ib in doc}
+    for k in doc:
+        s_ = solos.get(k)
+        if s_ is None or s_.get('exc') is not None or len(s_['results']) != len(obs['results']):
+            what = 'was not fitted' if s_ is None else (f"raises {s_['exc']['type']}: {s_['exc']['msg']}" if s_.get('exc')
+                                                        else f"returns {len(s_['results'])} results")
+            bad.append(('order:single-combination-call', f'the list specification returns {len(obs["results"])} results but '
+                                                         f'{names[k]} alone, on the same explicit windows, {what}'))
+            return bad
+    for i, r in enumerate(obs['results']):
+        rs = [solos[k]['results'][i] for k in doc]
+        table = ', '.join(f'{names[k]}: {x["assessment"]}' for k, x in zip(doc, rs))
+        succ = [x for x in rs if x['assessment'] == 'success']
+        if succ:
+            if not same_result(succ[0], r):
+                bad.append(('order:first-success-not-returned',
+                            f'peak {i}: the combinations fitted one by one (same window) give [{table}]; the first success in '
+                            f'the documented order (background varied first) is {rname(succ[0])} but the list specification '
+                            f'returns {rname(r)}' + ('' if rname(succ[0]) != rname(r) else ' with other parameters/statistics')))
+        elif r['assessment'] == 'success':
+            bad.append(('order:success-without-successful-combination',
+                        f'peak {i}: no combination succeeds on its own [{table}] but the list specification returns {rname(r)}'))
+        elif not any(same_result(x, r) for x in rs):
+            bad.append(('order:result-of-no-combination',
+                        f'peak {i}: the list specification returns {rname(r)}, which is the result of none of the combinations '
+                        f'fitted on their own [{table}]'))
+    return bad
+
+
 def remove_violations(case, rr):
     bad = []
     xs = [unhx(v) for v in case['x']]
@@ -790,7 +1004,7 @@ VAR_TEXT = {
 
 def correspondence(ctx):
     rng = random.Random(ctx.seed)
-    cases = gen_cases(rng, ctx.tier)
+    cases = gen_cases(rng, ctx.tier, ctx)
     res = ctx.run_impl(HARNESS, {'cases': cases}, timeout=3000)
     obs = res['cases']
     terms = [case_term(c, o) for c, o in zip(cases, obs)]
@@ -802,6 +1016,19 @@ def correspondence(ctx):
     variants_seen = {}
     for i, why in sorted(fails.items()):
         c, o = cases[i], obs[i]
+        if 'ORDER ' in why:
+            # Coq: the list-specification result is not ModelOrder.first_success of the single-combination results
+            ov = order_violations(c, o)
+            reason = 'ORDER ' + why.split('ORDER ', 1)[1].split(' & REMOVE')[0]
+            key = ov[0][0] if ov else 'order:first-candidate-not-kept'
+            text = ov[0][1] if ov else ('no combination succeeds and the list specification does not return the result of the '
+                                        'FIRST combination (as the model of _fit_peak does)')
+            ctx.violation(key, f'{text} -- Coq: {reason[:400]}; input: {describe(c, o)}', {'case': c, 'key': key, 'reason': why})
+            if why.startswith('ORDER '):
+                if ' & REMOVE' in why:
+                    ctx.violation('corr:remove', f'remove_peaks differs from the model ({why}) on {describe(c, o)}',
+                                  {'case': c, 'reason': why})
+                continue
         if why.startswith('VAR '):
             # the implementation behaves exactly like the model of the tree WITH one of the known defects:
             # the property statement decides whether that is a violation (it is) and names the input
@@ -855,8 +1082,34 @@ def correspondence(ctx):
             if r['assessment'] not in ('window_too_narrow',):
                 n_opt += 1
                 distinct.add((c['id'], tuple(r['window']), json.dumps(r['popt'], sort_keys=True)))
+    n_solo_cases = n_solo_calls = n_first_fails = n_order_decides = n_list_peaks = 0
+    order_samples = []
+    for c, o in zip(cases, obs):
+        if o.get('solos'):
+            n_solo_cases += 1
+            n_solo_calls += len(o['solos'])
+            pr = order_profile(c, o)
+            n_list_peaks += len(pr)
+            n_first_fails += sum(1 for a, b in pr if a)
+            n_order_decides += sum(1 for a, b in pr if b)
+            if any(b for a, b in pr) and len(order_samples) < 2:
+                doc = doc_order(c)
+                solos = {(s_['ip'], s_['ib']): s_ for s_ in o['solos']}
+                order_samples.append(dict(describe(c, o), single_fits=[
+                    {f"{spec_kinds(c['peak'])[ip]}+{spec_kinds(c['bkg'])[ib]}": solos[(ip, ib)]['results'][i]['assessment']
+                     for ip, ib in doc} for i in range(len(o['results']))]))
     ctx.coverage.update({
-        'evaluations': len(cases) + n_rem,
+        'model_list_cases_with_single_fits': n_solo_cases, 'single_combination_calls': n_solo_calls,
+        'list_spec_peaks_compared_with_first_success': n_list_peaks,
+        'peaks_where_first_combination_fails_and_a_later_one_succeeds': n_first_fails,
+        'peaks_where_trial_order_decides_the_result': n_order_decides,
+        'order_rule': 'for list x list model specifications (2x2, 2x3, 3x2, names/instances/list/tuple) every combination is '
+                      'also fitted alone through fit_peaks with a single-model specification and the windows of the list call '
+                      'given explicitly; Coq evaluates ModelOrder.first_success over Model.candidates (documented order) on these '
+                      'results and compares with the list-call result.  Class combo: true shape/background usually not first in '
+                      'the lists, min_p_value chosen between the p-values of the single fits so that the trial order decides',
+        'order_samples': order_samples,
+        'evaluations': len(cases) + n_rem + n_solo_calls,
         'distinct_nontrivial': len(distinct),
         'rule': 'one evaluation = one fit_peaks call (1..8 estimates) or one remove_peaks call compared in full inside Coq '
                 '(exception class, or per peak: window, chosen models, assessment, popt, red_chisq, p, aic, message; '
@@ -865,7 +1118,8 @@ def correspondence(ctx):
                 '(gaussian/lorentzian/pseudo_voigt, widths 0.3-30 steps) on linear/quadratic background, dyadic variances, '
                 'scalar widths from 0.3 steps to twice the range, explicit windows (incl. empty), estimates at the edges and '
                 'outside, every spec form (name / instance with foreign prefix / list / tuple), default and custom '
-                'FitParameters/FitRequirements, unsorted estimates and bad specs (refusals)',
+                'FitParameters/FitRequirements, unsorted estimates and bad specs (refusals); class combo: list x list model '
+                'specifications with min_p_value tuned so that the first combination fails and the trial order decides',
         'data_sets': len(cases), 'fit_calls_raising': n_exc, 'peaks_fitted': n_peaks, 'reached_optimiser': n_opt,
         'remove_calls': n_rem, 'per_assessment': per_assess, 'per_class': classes,
         'curve_fit_calls_replayed': sum(len(o['trace']) for o in obs),
@@ -882,6 +1136,11 @@ def search(ctx, broken):
     rng = random.Random(ctx.seed + 17)
     cases = [gen_case(rng, i, k) for i, k in enumerate(['narrow'] * 12 + ['outside'] * 12 + ['zero_dof'] * 4
                                                         + ['random'] * 16 + ['explicit'] * 6)]
+    for c in cases:
+        if want_solo(c):
+            c['solo'] = True
+    # model lists whose trial order decides the result (first combination fails, later ones succeed)
+    cases += gen_combo_cases(ctx, rng, 16, len(cases))
     res = ctx.run_impl(HARNESS, {'cases': cases}, timeout=1800)
     found = []
     for c, o in zip(cases, res['cases']):
@@ -905,7 +1164,8 @@ def replay(ctx, obj):
         pv += remove_violations(case, rr)
     print('required: one result per estimate and no exception; too-narrow windows reported as window_too_narrow; '
           'statistics recomputable from popt and the window; success => every requirement; windows inside the data '
-          'range around their estimate; remove_peaks touches only successful windows')
+          'range around their estimate; remove_peaks touches only successful windows; for lists of models the result is the '
+          'first success, in the documented order (background varied first), among the combinations fitted one by one')
     for k_, t in pv:
         print(f'VIOLATED [{k_}]: {t}')
     if not pv:
@@ -917,7 +1177,8 @@ LEVEL_TEXT = ('Proof: for every behaviour of the optimiser/guess/CDF oracles (in
               'fit_peaks returns exactly one result per estimate in order, each a function of the data in its window only; '
               'too-narrow windows give window_too_narrow without exception; reported red_chisq, p and AIC are chi2/(n-k), '
               '1-F_{n-k}(chi2), n ln(chi2/n)+2k over exactly the window points; success implies every requirement of _assess_fit; '
-              'automatic windows lie in the data range, contain their estimate and keep the neighbour separation; remove_peaks '
+              'automatic windows lie in the data range, contain their estimate and keep the neighbour separation; for lists of models '
+              'the result is the first success in the documented product order among the single-combination fits; remove_peaks '
               'subtracts exactly the fitted peaks inside successful windows and nothing else.  The model is tied to the source by '
               'running it inside Coq on ~120 data sets per run with the oracle answers recorded from the real implementation.')
 LEVEL_NOTE = ('Trusted: Coq kernel; the hand model coq/C17/Model.v (tie B: validated by the correspondence, not regenerated); modelled '
